@@ -146,6 +146,7 @@ type Enc struct {
 	qbound          []string // names of the quantifier variables whose body is being evaluated
 	dryCache        []dryCached
 	recGhost        map[string]bool
+	axiomLines      []axiomLine
 }
 
 func newEnc(P *Program, db *SpecDB, ti *TypeInfo) *Enc {
@@ -488,6 +489,17 @@ func (e *Enc) sliceWellFormed(v *Val) {
 func (e *Enc) strLit(s string) string {
 	if n, ok := e.strLits[s]; ok {
 		return n
+	}
+	if s == "" {
+		// the empty string is the zero value of the string type
+		z := e.zero("Str")
+		e.declFun("strlen", []string{"Str"}, "Int")
+		e.assert("(= (strlen " + z + ") 0)")
+		for _, k := range sortedKeys(e.strLits) {
+			e.assert("(not (= " + z + " " + e.strLits[k] + "))")
+		}
+		e.strLits[s] = z
+		return z
 	}
 	n := sym(fmt.Sprintf("str!%d!%s", len(e.strLits), truncate(s, 24)))
 	e.declConst(n, "Str")
